@@ -109,6 +109,11 @@ impl Pipe {
             let offer = gross * 2 + gross / 100;
             let r = self.f.w.exec(&u, &self.f.pair1.clone(), &PairExec::Swap { offer_asset: self.f.usdc.asset(offer), belief_price: None, max_spread: Some(dec("0.5")), to: None }, &[coin(offer, "uusdc")]);
             assert!(r.is_ok(), "{}", r.err());
+        } else if pair == 3 {
+            // usdc -> tka on pair2: the protocol fee is charged in the cw20 token (offer ~ 2 * gross)
+            let offer = gross * 2 + gross / 50 + 1;
+            let r = self.f.w.exec(&u, &self.f.pair2.clone(), &PairExec::Swap { offer_asset: self.f.usdc.asset(offer), belief_price: None, max_spread: Some(dec("0.5")), to: None }, &[coin(offer, "uusdc")]);
+            assert!(r.is_ok(), "{}", r.err());
         } else {
             // tka -> usdc on pair2 (reserves usdc 3e9 / tka 1.5e9): offer ~ gross / 2
             let offer = gross / 2 + gross / 100 + 1;
@@ -176,7 +181,8 @@ pub fn run_schedule(rec: &mut Rec, seed: u64, run: u64, line: &str) {
         let (p1, p2, v1, v2) = (class_amount(&mut r, c["p1"].as_u64().unwrap(), 10), class_amount(&mut r, c["p2"].as_u64().unwrap(), 10),
                                 class_amount(&mut r, c["v1"].as_u64().unwrap(), 10), if c["v2"].as_u64().unwrap() == 0 { 0 } else { r.gen_range(1..=5000u128) });
         p.make_pair_fee(1, p1);
-        p.make_pair_fee(2, p2);
+        // the second pair's fee is charged in usdc (even runs) or in its cw20 asset (odd runs)
+        p.make_pair_fee(if run % 2 == 0 { 2 } else { 3 }, p2);
         if run % 3 == 0 { p.make_trio_fee(p1); }
         p.make_vault_fee(1, v1);
         p.make_vault_fee(2, v2);
